@@ -92,8 +92,8 @@ def guarded(fn, limit=4000, wall=20.0, root=None):
 
 # ------------------------------------------------------------------ content elements
 class Content(object):
-    def __init__(self, m=1, pv=False, aslist=False):
-        self.m, self.pv, self.aslist = m, pv, aslist
+    def __init__(self, m=1, pv=False, aslist=False, take=0):
+        self.m, self.pv, self.aslist, self.take = m, pv, aslist, take
         self.content = []
         self.fill_log = []       # every value ever filled, in order
         self.req_sizes = []      # number of fills between consecutive requests
@@ -122,10 +122,14 @@ class Content(object):
         self.resets += 1
 
     def _run(self, flow):
+        read = 0
         for v in flow:
             self._fill(v)
             if self.pv:
                 yield (0, (v,))
+            read += 1
+            if read == self.take:       # take = 0: the whole flow is read
+                break
         for r in self._gen():
             yield r
 
@@ -178,7 +182,8 @@ def norm(v):
 def cfg_key(cfg):
     return "%s:n=%d:%s%s%s:m=%d%s" % (cfg["kind"], cfg["n"], "bufin" if cfg["bufIn"] else "bufout",
                                       ":reset" if cfg["reset"] else "", ":yor" if cfg["yor"] else "",
-                                      cfg["m"], ":pv" if cfg.get("pv") else "")
+                                      cfg["m"], (":pv" if cfg.get("pv") else "") +
+                                      (":take=%d" % cfg["take"] if cfg.get("take") else ""))
 
 
 def cfg_class(cfg):
@@ -190,7 +195,7 @@ def build_fr(cfg, el=None, aslist=False, neither=False):
     """Real lena.core.FillRequest for a spec configuration; returns (adapter, element)."""
     import lena.core
     if el is None:
-        el = KINDS[cfg["kind"]](cfg["m"], cfg.get("pv", False), aslist)
+        el = KINDS[cfg["kind"]](cfg["m"], cfg.get("pv", False), aslist, cfg.get("take", 0))
     kw = dict(bufsize=cfg["n"], reset=cfg["reset"], yield_on_remainder=cfg["yor"])
     if not (neither and cfg["yor"] and not cfg["bufIn"]):
         kw["buffer_input" if cfg["bufIn"] else "buffer_output"] = True
